@@ -12,6 +12,7 @@ import (
 	"sync"
 	"testing"
 
+	golibserrors "github.com/AdguardTeam/golibs/errors"
 	"github.com/AdguardTeam/golibs/netutil/urlutil"
 	"pgregory.net/rapid"
 
@@ -60,7 +61,7 @@ type Case struct {
 	PadTo    int      `json:"pad_to,omitempty"`
 	U1       UserInfo `json:"u1"`
 	U2       UserInfo `json:"u2"`
-	ErrShape int      `json:"err_shape"` // 0 nil, 1 *url.Error, 2 wrapped *url.Error, 3 plain error, 4 *url.Error with URL==""
+	ErrShape int      `json:"err_shape"` // 0 nil, 1 *url.Error, 2 wrapped *url.Error, 3 plain error, 4 *url.Error with URL=="", 5 errors.WithDeferred(*url.Error, x), 6 errors.Pair{x, *url.Error}, 7 errors.Annotate(*url.Error)
 	// Nest describes the cause below the error above, outermost first:
 	// "url" a *url.Error of another request (its URL text carries the second
 	// userinfo), "wrap" fmt.Errorf %w, "join" errors.Join with a second
@@ -205,6 +206,15 @@ func checkRedact(c Case) error {
 	case 4:
 		ue.URL = ""
 		e = ue
+	case 5:
+		// This library's own pair of a returned and a deferred error (what
+		// errors.WithDeferred makes of a request error and a Close error):
+		// not a *url.Error, whatever it holds.
+		e = golibserrors.WithDeferred(ue, errors.New("closing the body failed"))
+	case 6:
+		e = &golibserrors.Pair{Returned: errors.New("read failed"), Deferred: ue}
+	case 7:
+		e = golibserrors.Annotate(ue, "fetching: %w")
 	}
 	ueSnap := *ue
 	var msgBefore string
@@ -327,7 +337,7 @@ var (
 var redactProp = vp.Register(vp.Prop[Case]{
 	Kind: "c16.redact", Base: 60000,
 	Gen: func(t *rapid.T) Case {
-		c := Case{U1: uiGen.Draw(t, "u1"), U2: uiGen.Draw(t, "u2"), ErrShape: rapid.IntRange(0, 4).Draw(t, "err"), Echo: rapid.IntRange(0, 4).Draw(t, "echo") == 0}
+		c := Case{U1: uiGen.Draw(t, "u1"), U2: uiGen.Draw(t, "u2"), ErrShape: rapid.SampledFrom([]int{0, 1, 1, 2, 3, 4, 5, 6, 7}).Draw(t, "err"), Echo: rapid.IntRange(0, 4).Draw(t, "echo") == 0}
 		if rapid.IntRange(0, 2).Draw(t, "nested") == 0 {
 			c.Nest = rapid.SliceOfN(rapid.SampledFrom([]string{"url", "url", "wrap", "join", "typednil"}), 1, 3).Draw(t, "nest")
 		}
